@@ -27,7 +27,7 @@ class Unsupported(Exception):
 
 
 class Arr:
-    """A total array: finite map + default (None = unknown default)."""
+    """A total array: finite map + default (None = unknown default; a callable computes the default per key)."""
 
     __slots__ = ("m", "default")
 
@@ -40,6 +40,8 @@ class Arr:
             return self.m[k]
         if self.default is None:
             raise Unbound(f"array default needed for key {k:#x}")
+        if callable(self.default):
+            return self.default(k)
         return self.default
 
     def store(self, k, v):
@@ -53,7 +55,7 @@ class Arr:
         if self.default != o.default:
             return False
         keys = set(self.m) | set(o.m)
-        return all(self.m.get(k, self.default) == o.m.get(k, o.default) for k in keys)
+        return all(self.select(k) == o.select(k) for k in keys)
 
     def __hash__(self):  # pragma: no cover
         return 0
@@ -94,6 +96,9 @@ class Interp:
         self.extra = {}  # name -> callable(args, argsizes, outsize)
         self.strict_abstractions = False  # if True, f_evm_* are NOT interpreted (C11 refined queries)
         self.used = set()
+        # initial contents of storage: callable(name of halmos' initial storage term, index | None, index bits) -> word.
+        # None: the initial arrays storage_*_00 are all-zero (accounts without symbolic storage)
+        self.storage0 = None
 
     def apply(self, name: str, args: list[int], sizes: list[int], outsize: int):
         self.used.add(name)
@@ -194,6 +199,8 @@ class Evaluator:
             return False
         if self.zero_arrays and z3.is_array(a) and _is_empty_array_name(name):
             return False
+        if self.interp.storage0 is not None and _is_empty_array_name(name) and name != "balance_00":
+            return False
         return True
 
     def _const(self, e):
@@ -203,6 +210,12 @@ class Evaluator:
         if name == "f_sha3_0":
             self.interp.inv_sha3[EMPTY_KECCAK & ((1 << 160) - 1)] = (0, 0)
             return EMPTY_KECCAK
+        if self.interp.storage0 is not None and _is_empty_array_name(name) and name != "balance_00":
+            f = self.interp.storage0
+            if z3.is_array(e):
+                bits = e.sort().domain().size()
+                return Arr(lambda k: f(name, k, bits))
+            return f(name, None, 0)
         if z3.is_array(e) and self.zero_arrays and _is_empty_array_name(name):
             return Arr(0)
         raise Unbound(name)
